@@ -324,6 +324,12 @@ func check(args []string) int {
 			opt := sx.Options{MaxPaths: tc.MaxPaths, MaxWitnesses: tc.Witnesses, Progress: *progress, Workers: workers}
 			if tc.TimeoutS > 0 {
 				opt.Deadline = time.Now().Add(time.Duration(tc.TimeoutS) * time.Second)
+			} else if *tier == "quick" {
+				// default per-entry deadline: a changed tree can make the solver stall; the run then ends
+				// inconclusive (or with the violations found so far) instead of running on for hours
+				opt.Deadline = time.Now().Add(900 * time.Second)
+			} else {
+				opt.Deadline = time.Now().Add(5400 * time.Second)
 			}
 			rep, err := sx.Explore(mk, fn, opt)
 			if err != nil {
